@@ -212,6 +212,12 @@ def oracle(case, R):
                 daf[j] = max(daf[j], (abs(S["k"][i]) + w_ * w_ * abs(S["m"][i])) / hij)
         # (forces leak between modes at round-off level in the physical forms: use the softest mode)
         natd[j] = Fabs[:, j].max() / min(hs) if hs else 0.0
+        if form == "physical" and hs:
+            # the solver sees rounded physical matrices: a relative perturbation eps of K, M reaches every
+            # modal equation with the size of the LARGEST modal term, so the softest mode's response carries
+            # eps * max_i(|k_i| + W^2 |m_i|) / min_i |h_i|  (= eps * cond(K) for the static solution)
+            big = max(abs(S["k"][i]) + (0.0 if i in S["rf"] else w_ * w_ * abs(S["m"][i])) for i in range(n))
+            daf[j] = max(daf[j], big / min(hs))
     nrmPhi = 1.0
     nata = np.maximum(natd * W_ ** 2, (Fabs / np.abs(S["m"])[:, None]).max(axis=0))
     nat = {"d": natd * nrmPhi, "v": natd * W_ * nrmPhi, "a": nata * nrmPhi}
